@@ -4,6 +4,8 @@ package main
 
 import (
 	"fmt"
+	"os"
+	"runtime/debug"
 	"go/ast"
 	"go/token"
 	"go/types"
@@ -154,6 +156,10 @@ func (c *FnCtx) specBool(env *SpecEnv, e ast.Expr) string {
 
 func (c *FnCtx) specErr(format string, a ...any) {
 	msg := fmt.Sprintf(format, a...)
+	if os.Getenv("VCGO_DEBUG") != "" {
+		fmt.Fprintln(os.Stderr, "SPECERR", msg)
+		debug.PrintStack()
+	}
 	for _, x := range c.specErrs {
 		if x == msg {
 			return
@@ -513,6 +519,14 @@ func (c *FnCtx) specCall(env *SpecEnv, x *ast.CallExpr) *Val {
 				c.decls.needSort(so)
 				return &Val{T: fmt.Sprintf("((as const %s) %s)", so, arg(1).T), S: so}
 			}
+		}
+	case "pkgvar":
+		if bl, ok := x.Args[0].(*ast.BasicLit); ok {
+			k, _ := strconv.Unquote(bl.Value)
+			n := "G_" + sanitizeSym(k)
+			c.decls.declFun(n, nil, SInt)
+			c.errGlobals[n] = true
+			return &Val{T: n, S: SInt}
 		}
 	case "funcref":
 		if bl, ok := x.Args[0].(*ast.BasicLit); ok {
